@@ -42,7 +42,12 @@ RULE = ("cutting-stock instances (roll width 5-20, 1-4 piece sizes <= width with
         "<= 12 columns, entries 0-3; initial columns cover every demanded row), each solved by solve_cg and "
         "solve_bp (solve_bp with max_nodes in {10,40,100} on generated instances, default on the hand-written "
         "ones), plus a small stream with max_iter in 0..3 and one with initial columns "
-        "that cannot cover the demands (excluded region); non-trivial = the run generated >= 1 column; distinct "
+        "that cannot cover the demands (excluded region); 15 % of the calls get an on_progress callback "
+        "(progress_interval 1/2/5, asking to stop from iteration 0/1/2/3 on or never); plus 160 x budget multi-call "
+        "histories: 2-4 solves (solve_cg/solve_bp mixed) run one after the other in ONE process that share piece "
+        "sizes / column set / demands while width and demands move narrow->wide, wide->narrow, same twice or mixed, "
+        "every solve judged on its own instance; a failure is re-run alone in a fresh process and, if it passes "
+        "there, after its predecessors (class suffix :after_previous_call); non-trivial = the run generated >= 1 column; distinct "
         "by canonical (function, instance, options)")
 # per-call wall-clock limit.  solve_bp is called with max_nodes <= 100 on the generated instances
 # (<= 1 s per call on the repaired code, solve_cg and the exact optimum take milliseconds), so
@@ -114,6 +119,11 @@ def edge_cases():
     # solve_bp: 1000 identical master LPs per node (pricing returns a column already in the pool)
     yield {**base, "fn": "solve_bp", "W": 7, "sizes": [3, 1, 3], "demands": [3, 5, 3]}
     yield {**base, "fn": "solve_bp", "W": 9, "sizes": [3, 3, 1, 1], "demands": [1, 6, 1, 1], "opts": {"max_iter": 0}}
+    # on_progress asks to stop at iteration 0: the LP value of the initial patterns is no bound
+    yield {**base, "fn": "solve_cg", "W": 5, "sizes": [3, 2], "demands": [2, 2],
+           "opts": {"progress": {"interval": 1, "stop_at": 0}}}
+    yield {**base, "fn": "solve_bp", "W": 5, "sizes": [3, 2], "demands": [2, 2],
+           "opts": {"progress": {"interval": 1, "stop_at": 0}}}
     del base["opts"]
     yield {**base, "W": 17, "sizes": [1, 1], "demands": [5, 1]}
     yield {**base, "W": 5, "sizes": [5], "demands": [0]}
@@ -126,6 +136,12 @@ def edge_cases():
     yield {**base, "W": 14, "sizes": [3, 4], "demands": [2, 2]}
 
 
+def gen_progress(rng):
+    """`on_progress` behaviour: called every `interval` iterations, asks to stop from iteration
+    `stop_at` on (None: never)."""
+    return {"interval": rng.choice([1, 1, 2, 5]), "stop_at": rng.choice([0, 0, 1, 2, 3, None])}
+
+
 def expand(inst, rng=None):
     """One case per function (and option set) for an instance."""
     out = []
@@ -133,12 +149,61 @@ def expand(inst, rng=None):
         opts = {}
         if rng is not None and rng.random() < 0.08:
             opts = {"max_iter": rng.choice([0, 1, 2, 3])}
+        if rng is not None and rng.random() < 0.15:
+            opts["progress"] = gen_progress(rng)
         if fn == "solve_bp" and rng is not None:
             # bound the tree search: with the default 10000 nodes a legitimate search can take
             # minutes, and then a time-out would say nothing (see TIMEOUT)
             opts["max_nodes"] = rng.choice([40, 40, 40, 10, 100])
         out.append({**inst, "fn": fn, "opts": opts})
     return out
+
+
+def gen_history(rng):
+    """2-4 solves to be run one after the other in ONE process: they share piece sizes (or the
+    column set, or the demands) while width / demands move in both directions."""
+    import copy
+    steps = []
+    k = rng.choice([2, 2, 3, 4])
+    if rng.random() < 0.7:
+        n = rng.choice([1, 2, 2, 3, 3, 4])
+        sizes = [rng.randint(1, 9) for _ in range(n)]
+        lo = max(sizes)
+        widths = sorted({rng.randint(lo, lo + 4), rng.randint(lo + 1, 20)})
+        if len(widths) == 1:
+            widths.append(widths[0] + 3)
+        dem = [rng.randint(0, 6) for _ in range(n)]
+        pattern = rng.choice(["narrow_wide", "narrow_wide", "wide_narrow", "same", "mixed"])
+        for j in range(k):
+            if pattern == "narrow_wide":
+                W = widths[0] if j == 0 else widths[1]
+            elif pattern == "wide_narrow":
+                W = widths[1] if j == 0 else widths[0]
+            elif pattern == "same":
+                W = widths[0]
+            else:
+                W = rng.choice(widths)
+            d = list(dem) if rng.random() < 0.6 else [rng.randint(0, 6) for _ in range(n)]
+            steps.append({"mode": "cs", "W": W, "sizes": list(sizes), "demands": d, "cols": [], "init": []})
+    else:
+        base = gen_cols(rng)
+        for j in range(k):
+            c = copy.deepcopy(base)
+            r = rng.random()
+            if j and r < 0.5:
+                c["demands"] = [rng.randint(0, 6) for _ in c["demands"]]
+            elif j and r < 0.8:
+                extra = [[rng.choice([0, 0, 1, 1, 2, 3]) for _ in c["demands"]] for _ in range(rng.randint(1, 3))]
+                c["cols"] = c["cols"] + [e for e in extra if e not in c["cols"]]
+            steps.append(_fix_cols(c))
+    out = []
+    for st in steps:
+        fn = rng.choice(["solve_cg", "solve_bp"])
+        opts = {"max_nodes": 40} if fn == "solve_bp" else {}
+        if rng.random() < 0.1:
+            opts["progress"] = gen_progress(rng)
+        out.append({**st, "fn": fn, "opts": opts})
+    return {"steps": out}
 
 
 # ---------------------------------------------------------------------------
@@ -155,7 +220,12 @@ def impl(case):
     fn = getattr(mod, case["fn"])
     dem = list(case["demands"])
     priced = []  # (duals, value of the best column under them)
-    kw = dict(case["opts"])
+    kw = {k: v for k, v in case["opts"].items() if k != "progress"}
+    prog = case["opts"].get("progress")
+    if prog:
+        stop_at = prog["stop_at"]
+        kw["progress_interval"] = prog["interval"]
+        kw["on_progress"] = (lambda p: stop_at is not None and p.iteration >= stop_at)
     restore = None
     if case["mode"] == "cs":
         kw.update(roll_width=case["W"], piece_sizes=list(case["sizes"]))
@@ -208,6 +278,24 @@ def impl(case):
             "demands_unchanged": dem == list(case["demands"])}
 
 
+_PREV = []  # per worker process: the last cases this process solved (history of module state)
+
+
+def impl_unit(unit):
+    """unit = {"steps": [case, ...]}: the steps are solved one after the other in this process.
+    Returns one outcome per step and the cases this process had solved before."""
+    prev = list(_PREV[-3:])
+    res = []
+    for c in unit["steps"]:
+        try:
+            res.append(("ok", impl(c)))
+        except BaseException as e:  # noqa: BLE001 - the error kind is an observable
+            res.append(("err", f"{type(e).__name__}: {e}"[:500]))
+        _PREV.append(c)
+    del _PREV[:-3]
+    return {"res": res, "prev": prev}
+
+
 def to_request(case, out):
     plan = obj = duals = None
     if out[0] == "ok":
@@ -218,7 +306,9 @@ def to_request(case, out):
         duals = r["duals"]
     return ["case", case["mode"], case["W"], case["sizes"], case["demands"], case["cols"], plan, obj, duals,
             case["fn"], int(case["opts"].get("max_iter", 1000)), case["init"],
-            int(case["opts"].get("max_nodes", 10000))]
+            int(case["opts"].get("max_nodes", 10000)),
+            int((case["opts"].get("progress") or {}).get("interval", 0)),
+            (case["opts"].get("progress") or {}).get("stop_at")]
 
 
 # ---------------------------------------------------------------------------
@@ -230,7 +320,7 @@ def rprop_failures(case, out, reply):
     [(class, what)].  Used by `judge` (reporting) and by the shrinker (same class must still fail)."""
     fails = []
     opt, plan_ok, parts, rolls = reply[:4]
-    tag = ":max_iter" if "max_iter" in case["opts"] else ""
+    tag = (":max_iter" if "max_iter" in case["opts"] else "") + (":on_progress" if "progress" in case["opts"] else "")
     excluded = case["mode"] == "cols" and not case.get("init_feasible", True)
     if out[0] == "timeout":
         return [("timeout", f"no result within {TIMEOUT:.0f} s and, re-run, within {CONFIRM:.0f} s "
@@ -266,16 +356,25 @@ def judge(ctx, case, out, reply, extra=None):
     fn = case["fn"]
     rep = {"case": case, "impl": out, "model": reply}
     opt, plan_ok, parts, rolls, dual, mirror = reply
-    tag = ":max_iter" if "max_iter" in case["opts"] else ""
+    tag = (":max_iter" if "max_iter" in case["opts"] else "") + (":on_progress" if "progress" in case["opts"] else "")
     excluded = case["mode"] == "cols" and not case.get("init_feasible", True)
     ctx.count("mode:" + case["mode"] + (":excluded_init" if excluded else "") + tag)
     canon = [fn, case["mode"], case["W"], case["sizes"], case["demands"], case["cols"], case["init"],
-             sorted(case["opts"].items())]
+             sorted((k, str(v)) for k, v in case["opts"].items())]
+    if "progress" in case["opts"]:
+        ctx.count("on_progress:" + ("never" if case["opts"]["progress"]["stop_at"] is None else "stop"))
     for klass, what in rprop_failures(case, out, reply):
         # count every failing clause by class, also beyond the cap on written replays
-        ctx.count(f"fail:{fn}:{klass}")
-        more = (extra or {}).get(klass)
-        ctx.fail(fn, klass, what, {**rep, **({"shrunk": more} if more else {})})
+        more = (extra or {}).get(klass) or {}
+        full = klass + more.get("suffix", "")
+        ctx.count(f"fail:{fn}:{full}")
+        r2 = dict(rep)
+        if "replay_case" in more:  # a history: the replay must run the whole sequence
+            r2["case"] = more["replay_case"]
+            r2["failing_step"] = case
+        if "shrunk" in more:
+            r2["shrunk"] = more["shrunk"]
+        ctx.fail(fn, full, what + more.get("note", ""), r2)
     if out[0] == "timeout":
         ctx.count("timeouts")
         ctx.case(canon, False)
@@ -441,7 +540,8 @@ def candidates(case):
 
 def evaluate(cases, timeout):
     """Failure classes of each case on the current tree (implementation + model)."""
-    outs = run_pool(impl, cases, timeout=timeout)
+    outs = [o[1]["res"][0] if o[0] == "ok" else o
+            for o in run_pool(impl_unit, [{"steps": [c]} for c in cases], timeout=timeout)]
     replies = Driver("Cut").run([to_request(c, o) for c, o in zip(cases, outs)], chunks=8)
     res = []
     for c, o, rp in zip(cases, outs, replies):
@@ -473,54 +573,108 @@ def shrink(case, klass, budget_s=40.0, max_rounds=60):
     return {"case": cur, "steps": len([h for h in history if isinstance(h, dict)]), "history": history[-12:]}
 
 
-def run_cases(ctx, cases, do_shrink=True):
-    outs = run_pool(impl, cases, timeout=TIMEOUT)
-    # a time-out is confirmed by running the call again on a quiet machine (limit CONFIRM)
-    # (DESIGN §2.4); only a repeated time-out is reported.  At most 6 (quick) / 18 (thorough) are
+def fresh(steps, timeout=None):
+    """Solve `steps` one after the other in a NEW process (nothing solved before); outcome and
+    failure classes of the last step."""
+    o = run_pool(impl_unit, [{"steps": steps}], timeout=timeout or CONFIRM * len(steps), procs=1)[0]
+    out = o[1]["res"][-1] if o[0] == "ok" else o
+    rp = Driver("Cut").run([to_request(steps[-1], out)])[0]
+    if rp and rp[0] == "error":
+        raise Infra(f"model rejected request: {rp}")
+    return out, {k for k, _ in rprop_failures(steps[-1], out, rp)}
+
+
+def confirm(case, klass, context):
+    """Where does a failure come from?  Re-run the instance alone in a fresh process; if it passes
+    there, re-run it after `context` (the solves that preceded it in the same process)."""
+    _, alone = fresh([case])
+    if klass in alone:
+        return {}
+    if context:
+        for ctxt in ([context[-1:]] if len(context) > 1 else []) + [context]:
+            _, after = fresh(list(ctxt) + [case])
+            if klass in after:
+                return {"suffix": ":after_previous_call", "replay_case": {"history": list(ctxt) + [case]},
+                        "note": f" - the same instance passes when solved alone in a fresh process; it fails after "
+                                f"{len(ctxt)} earlier solve(s) in the same process"}
+    return {"suffix": ":unreproduced", "replay_case": {"history": list(context) + [case]},
+            "note": " - failed once in a worker process, passes alone and after the recorded earlier solves"}
+
+
+def run_cases(ctx, units, do_shrink=True):
+    """units: {"steps": [case, ...]} (a single case is a one-step unit)."""
+    import time
+    outs = run_pool(impl_unit, units, timeout=TIMEOUT)
+    # a time-out is confirmed by running the unit again on a quiet machine (limit CONFIRM per step,
+    # DESIGN §2.4); only a repeated time-out is reported.  At most 6 (quick) / 18 (thorough) are
     # re-run; the others are counted but not reported.
     slow = [i for i, o in enumerate(outs) if o[0] == "timeout"]
     if slow:
         ctx.count("timeouts_first_pass", len(slow))
         keep = slow[: (6 if ctx.tier == "quick" else 18)]
-        again = run_pool(impl, [cases[i] for i in keep], timeout=CONFIRM, procs=6)
+        again = run_pool(impl_unit, [units[i] for i in keep],
+                         timeout=CONFIRM * max(len(units[i]["steps"]) for i in keep), procs=6)
         for i, o in zip(keep, again):
             outs[i] = o
         for i in slow[len(keep):]:
             outs[i] = ("skipped", "timed out in the first pass, not re-run")
             ctx.count("timeouts_not_rerun")
-    reqs = [to_request(c, o) for c, o in zip(cases, outs)]
-    replies = Driver("Cut").run(reqs, chunks=12)
-    for c, rp in zip(cases, replies):
+    # flatten: one item per solve
+    items = []  # (case, outcome, context = solves that preceded it in the same process)
+    for u, o in zip(units, outs):
+        steps = u["steps"]
+        if len(steps) > 1:
+            ctx.count("history_units")
+        if o[0] == "skipped":
+            continue
+        if o[0] != "ok":  # the unit as a whole raised in the pool / timed out: charge the last step
+            items.append((steps[-1], o, steps[:-1]))
+            continue
+        for j, (c, so) in enumerate(zip(steps, o[1]["res"])):
+            if len(steps) > 1:
+                ctx.count("history_steps")
+            items.append((c, so, (steps[:j] if len(steps) > 1 else o[1]["prev"])))
+    replies = Driver("Cut").run([to_request(c, o) for c, o, _ in items], chunks=12)
+    for (c, _, _), rp in zip(items, replies):
         if rp and rp[0] == "error":
             raise Infra(f"model rejected request: {rp} for {c}")
-    # shrink the first failure of each (function, class) that would be reported (at most 3 per run)
-    extras, seen = {}, set()
-    import time
-    t0, total_budget = time.time(), (15.0 if ctx.tier == "quick" else 150.0)
-    if do_shrink:
-        for i, (c, o, rp) in enumerate(zip(cases, outs, replies)):
-            for klass, _ in ([] if o[0] == "skipped" else rprop_failures(c, o, rp)):
-                key = (c["fn"], klass)
-                left = total_budget - (time.time() - t0)
-                if key in seen or len(seen) >= 3 or ctx.known_match(c["fn"], klass) is not None or left < 3:
-                    continue
-                if klass == "timeout" and ctx.tier == "quick":
-                    continue  # every round costs a full time-out; thorough tier only
-                seen.add(key)
-                sh = shrink(c, klass, budget_s=min(left, 60.0 if klass == "timeout" else 15.0))
-                extras.setdefault(i, {})[klass] = sh
-                if sh["steps"]:
+    # confirm (alone in a fresh process / after its predecessors) and shrink the first failures of
+    # each (function, class); further failures of the same kind inherit the verdict
+    extras, verdict, nshrunk = {}, {}, 0
+    t0, total_budget = time.time(), (25.0 if ctx.tier == "quick" else 200.0)
+    for i, ((c, o, context), rp) in enumerate(zip(items, replies)):
+        for klass, _ in rprop_failures(c, o, rp):
+            key = (c["fn"], klass)
+            left = total_budget - (time.time() - t0)
+            if key in verdict or len(verdict) >= 8 or left < 3 or klass == "timeout":
+                if key in verdict:
+                    inh = {k: v for k, v in verdict[key].items() if k == "suffix"}
+                    if inh.get("suffix"):  # inherited verdict: the replay still needs the sequence
+                        inh["replay_case"] = {"history": list(context) + [c]}
+                        inh["note"] = " - verdict inherited from the first failure of this class (not re-confirmed)"
+                    extras.setdefault(i, {})[klass] = inh
+                continue
+            more = confirm(c, klass, context)
+            verdict[key] = more
+            if more.get("suffix"):
+                ctx.count("confirmed" + more["suffix"])
+            elif do_shrink and nshrunk < 3 and ctx.known_match(c["fn"], klass) is None:
+                nshrunk += 1
+                sh = shrink(c, klass, budget_s=min(left, 15.0))
+                if sh["steps"] and klass in fresh([sh["case"]])[1]:
+                    more = {**more, "shrunk": sh}
                     ctx.notes.append(f"minimised {c['fn']}/{klass} (proposed for corpus/C17): "
                                      f"{ {k: sh['case'][k] for k in ('mode', 'W', 'sizes', 'demands', 'cols', 'init', 'opts')} }")
-    for i, (c, o, rp) in enumerate(zip(cases, outs, replies)):
-        if o[0] != "skipped":
-            judge(ctx, c, o, rp, extras.get(i))
+            extras.setdefault(i, {})[klass] = more
+    for i, ((c, o, _), rp) in enumerate(zip(items, replies)):
+        judge(ctx, c, o, rp, extras.get(i))
     h = ctx.cov["histogram"]
     for k in ("cert_checked_impl", "cert_checked_model", "r_trace_agree", "mirror_optimal_by_theorem",
               "bp_mirror_optimal_by_theorem", "mirror_optimal_side_condition_open",
               "bp_mirror_optimal_side_condition_open", "r_trace_skipped_float_tie:agree",
               "r_trace_skipped_float_tie:differ", "timeouts", "excluded_region_hits",
-              "dual_bound_checked", "optimal_certified_by_impl_duals"):
+              "dual_bound_checked", "optimal_certified_by_impl_duals", "history_units", "history_steps",
+              "on_progress:stop", "on_progress:never"):
         ctx.cov[k] = h.get(k, 0)
     ctx.cov["missing_theorems"] = ["master-LP mirror certifies ([S]: the simplex mirror reaches an LP optimum / returns "
                                    "an eps-feasible x on every input) - primal side checked per instance by checkPlan; "
@@ -531,13 +685,20 @@ def run_cases(ctx, cases, do_shrink=True):
 def run(ctx, budget):
     ctx.cov["rule"] = RULE
     ctx.cov["r_trace"] = ("solve_cg and solve_bp: returned (status, plan as a sorted list) equals the Rat "
-                          "mirror's (Solvor/Cut/Mirror.lean, MirrorBp.lean)")
+                          "mirror's (Solvor/Cut/Mirror.lean, MirrorBp.lean; the on_progress stop is mirrored)")
     cases = []
+    units = []
     for inst in list(edge_cases()) + [c["case"] for c in load_corpus("C17")]:
-        if "fn" in inst:
+        if "history" in inst:
+            units.append({"steps": inst["history"]})
+        elif "fn" in inst:
             cases.append(inst)
         else:
             cases += expand(inst)
+    # the round-2 witness: same sizes, a narrower roll first, a wider one right after
+    w = {"mode": "cs", "cols": [], "init": [], "sizes": [3, 2], "demands": [2, 1], "opts": {}}
+    units.append({"steps": [{**w, "W": 5, "fn": "solve_cg"}, {**w, "W": 8, "fn": "solve_cg"}]})
+    units.append({"steps": [{**w, "W": 5, "fn": "solve_bp"}, {**w, "W": 8, "fn": "solve_bp"}]})
     rng = ctx.rng
     for i in range(330 * budget):
         cases += expand(gen_cs(rng, big=(ctx.tier == "thorough" and i % 4 == 0)), rng)
@@ -545,9 +706,12 @@ def run(ctx, budget):
         cases += expand(gen_cols(rng), rng)
     for _ in range(20 * budget):
         cases += expand(gen_cols(rng, feasible_init=False))
-    run_cases(ctx, cases)
+    units += [{"steps": [c]} for c in cases]
+    units += [gen_history(rng) for _ in range(160 * budget)]
+    run_cases(ctx, units)
 
 
 def replay(ctx, body):
     ctx.cov["rule"] = RULE
-    run_cases(ctx, [body["case"]], do_shrink=False)
+    case = body["case"]
+    run_cases(ctx, [{"steps": case["history"]} if "history" in case else {"steps": [case]}], do_shrink=False)
